@@ -66,6 +66,8 @@ Sites ==
   \cup {[key |-> <<"builder", mm>>, n |-> 1] : mm \in {"stdin_null", "stdout_capture", "stderr_inherit"}}
   \cup {[key |-> <<"builder", mm>>, n |-> 2] : mm \in {"arg", "cwd", "stdin_text", "timeout_ms"}}
   \cup {[key |-> <<"builder", "env">>, n |-> 3]}
+  \* a unary operator on the operand, itself the operand of a binary operator (the inner result has the operator's type)
+  \cup {[key |-> <<"un-in-bin", op>>, n |-> 1] : op \in {"add", "minus", "lt", "na", "and", "or"}}
   \* a call whose callee is a value, not a name
   \cup {[key |-> <<"callee", w>>, n |-> 1] : w \in {"noargs", "onearg"}}
   \* index targets whose base is a call result
@@ -89,6 +91,9 @@ Use(site, d, id) ==
     [] k1 = "builder" -> <<Shout(id, M(d[1], k2, SubSeq(d, 2, Len(d))))>>
     [] k1 = "method-missing-arg" -> <<Shout(id, M(d[1], k2, SubSeq(d, 2, Len(d))))>>
     [] k1 = "member" -> <<Shout(id, [k |-> "member", o |-> d[1], m |-> k2])>>
+    [] k1 = "un-in-bin" ->
+         IF k2 \in {"and", "or"} THEN <<Shout(id, Bin(k2, Un("not", d[1]), [k |-> "bool", v |-> TRUE])), Shout(id + 1, Bin(k2, [k |-> "bool", v |-> FALSE], Un("not", d[1])))>>
+         ELSE <<Shout(id, Bin(k2, Un("neg", d[1]), Num(4))), Shout(id + 1, Bin(k2, Num(8), Un("neg", d[1])))>>
     [] k1 = "callee" ->
          \* `p(1)` would be a call BY NAME; a variable operand is wrapped so that the callee is a value
          LET o == IF d[1].k = "var" THEN Idx([k |-> "arr", es |-> <<d[1]>>], Num(0)) ELSE d[1] IN
